@@ -112,7 +112,7 @@ func drawInput(t *rapid.T, ps *paramSet, allowWide bool, label string) Input {
 		}
 		return Input{Kind: "w", Limbs: limbsOf(v, ps)}
 	case k < 90:
-		c := rapid.SampledFrom([]string{"0", "1", "2", "3", "small", "q-1", "q", "q+1", "rand", "limb-1", "limb", "twolimb"}).Draw(t, label+"-const")
+		c := rapid.SampledFrom([]string{"0", "1", "2", "3", "small", "q-1", "q", "q+1", "rand", "limb-1", "limb", "twolimb", "q-low", "q-low2"}).Draw(t, label+"-const")
 		var v *big.Int
 		switch c {
 		case "small":
@@ -126,6 +126,11 @@ func drawInput(t *rapid.T, ps *paramSet, allowWide bool, label string) Input {
 		case "rand":
 			v = drawBig(t, ps.Q.BitLen()+8, label)
 			v.Mod(v, ps.Q)
+		case "q-low":
+			// the low limb(s) of the modulus: a short element that must not be mistaken for the modulus
+			v = new(big.Int).Mod(ps.Q, pow2(ps.W))
+		case "q-low2":
+			v = new(big.Int).Mod(ps.Q, pow2(2*ps.W))
 		case "limb-1":
 			v = new(big.Int).Sub(pow2(ps.W), big.NewInt(1))
 		case "limb":
@@ -167,7 +172,7 @@ var opWeights = []struct {
 	{"Div", 4}, {"Inverse", 3}, {"Sqrt", 3}, {"Exp", 1}, {"Eval", 3}, {"Reduce", 4}, {"ReduceStrict", 3},
 	{"Select", 3}, {"Lookup2", 2}, {"Mux", 2}, {"FromBits", 2}, {"BitsRoundTrip", 1}, {"ToBits", 3}, {"ToBitsCanonical", 2},
 	{"IsZero", 3}, {"AssertIsEqual", 4}, {"AssertIsDifferent", 2}, {"AssertIsInRange", 3}, {"AssertIsLessOrEqual", 2},
-	{"PUMP", 6},
+	{"PUMP", 6}, {"SHORT", 5},
 }
 
 func drawOpName(t *rapid.T) string {
@@ -281,6 +286,55 @@ func genCase(cfg genConfig) *rapid.Generator[Case] {
 				}
 			}
 			switch name {
+			case "SHORT":
+				// an element on fewer limbs than the modulus (FromBits of few bits, often the low bits of the modulus),
+				// then the consumers that index limbs or size hints by the operand length
+				nb := rapid.SampledFrom([]int{1, int(ps.W) - 1, int(ps.W), int(ps.W), 2 * int(ps.W)}).Draw(t, "short-bits")
+				if nb > int(ps.N*ps.W) {
+					nb = int(ps.N * ps.W)
+				}
+				if nb < 1 {
+					nb = 1
+				}
+				bs := make([]int, nb)
+				ones := rapid.IntRange(0, 2).Draw(t, "short-shape")
+				for j := range bs {
+					if ones == 0 {
+						bs[j] = 1
+					} else {
+						bs[j] = int(ps.Q.Bit(j))
+					}
+				}
+				if !push(Op{Op: "FromBits", S: bs}) {
+					break
+				}
+				x := n
+				switch rapid.IntRange(0, 7).Draw(t, "short-consumer") {
+				case 0:
+					push(Op{Op: "IsZero", A: []int{x}})
+				case 1:
+					push(Op{Op: "AssertIsDifferent", A: []int{x, pick(t, n, "b")}})
+				case 2:
+					push(Op{Op: "AssertIsInRange", A: []int{x}})
+					push(Op{Op: "ToBitsCanonical", A: []int{x}})
+				case 3:
+					if push(Op{Op: "Add", A: []int{x, x}}) && push(Op{Op: "Add", A: []int{x + 1, x}}) {
+						push(Op{Op: "Mul", A: []int{x + 1, x + 2}})
+					}
+				case 4:
+					push(Op{Op: "Inverse", A: []int{x}})
+				case 5:
+					if push(Op{Op: "MulConst", A: []int{x}, K: "3"}) && expCount == 0 && cheapExp && len(exacts) > 0 {
+						if push(Op{Op: "Exp", A: []int{x + 1, rapid.SampledFrom(exacts).Draw(t, "exp-e")}}) {
+							expCount++
+						}
+					}
+				case 6:
+					t0 := []int{0, 0, 0}
+					push(Op{Op: "Eval", A: []int{x}, T: [][]int{t0[:rapid.IntRange(2, 3).Draw(t, "deg")], {0, 0}}, C: []int{255, 7}})
+				case 7:
+					push(Op{Op: "Select", A: []int{x, pick(t, n, "b")}, S: []int{rapid.IntRange(0, 1).Draw(t, "sel")}})
+				}
 			case "PUMP":
 				// drive the overflow counter: a big constant multiplication or repeated doubling, then a consumer
 				switch rapid.IntRange(0, 5).Draw(t, "pump") {
@@ -416,7 +470,7 @@ func genCase(cfg genConfig) *rapid.Generator[Case] {
 				if nb > int(ps.N*ps.W) {
 					nb = int(ps.N * ps.W)
 				}
-				shape := rapid.IntRange(0, 2).Draw(t, "fb-shape")
+				shape := rapid.IntRange(0, 3).Draw(t, "fb-shape")
 				v := drawBig(t, nb, "fb-bits")
 				bs := make([]int, nb)
 				for j := range bs {
@@ -425,6 +479,8 @@ func genCase(cfg genConfig) *rapid.Generator[Case] {
 						bs[j] = 1
 					case 1:
 						bs[j] = int(v.Bit(j))
+					case 3:
+						bs[j] = int(ps.Q.Bit(j))
 					}
 				}
 				push(Op{Op: name, S: bs})
